@@ -520,8 +520,33 @@ def build(model, setters=None):
     counts = {}
     for pname, params, v in props:
         counts[pname.upper()] = counts.get(pname.upper(), 0) + 1
-    for pname, params, v in props:
+    # API variety (only with `setters`): occurrences of a repeatable name with identical parameters are (sometimes) handed to one
+    # add(name, [v1, v2, ...]) call - after, before or instead of single-value add() calls of the same name; a text property
+    # without parameters is (sometimes) stored by item assignment of the plain str, over an earlier, different assignment
+    grouped = {}            # index of the first prop of a group -> [values]; members -> None
+    if setters is not None:
+        last = {}
+        for idx, (pname, params, v) in enumerate(props):
+            u = pname.upper()
+            ok = v[0] in ("text", "uri", "caladdress", "int", "recur", "td", "d", "dt", "period") and u not in ("RDATE", "EXDATE", "CATEGORIES") and counts[u] > 1
+            if ok and u in last and props[last[u]][1] == params and props[last[u]][0] == pname and setters.randrange(3):
+                grouped.setdefault(last[u], [props[last[u]][2]]).append(v)
+                grouped[idx] = None
+            elif ok:
+                last[u] = idx
+            else:
+                last.pop(u, None)
+    for idx, (pname, params, v) in enumerate(props):
         p = {k: (list(val[1:]) if isinstance(val, tuple) and val and val[0] == "l" else val) for k, val in params}
+        if idx in grouped:
+            if grouped[idx] is not None:
+                comp.add(pname, [py_value(x) for x in grouped[idx]], parameters=p or None)
+            continue
+        if setters is not None and not p and counts[pname.upper()] == 1 and v[0] == "text" and setters.randrange(5) == 0:
+            if setters.randrange(2):
+                comp[pname] = "an earlier value; replaced, completely"
+            comp[pname] = py_value(v)
+            continue
         attr = SETTERS.get(name, {}).get(pname.upper())
         if setters is not None and attr and not p and counts[pname.upper()] == 1 and v[0] in ("d", "dt", "td", "int") and setters.randrange(2):
             if v[0] in ("d", "dt") and setters.randrange(3):
